@@ -401,6 +401,13 @@ IDIOMS = [
     "Select(Where(Where(ds, lambda {x}: Count(Select({x}.jets, lambda {x2}: {x2}.eta)) > 1), lambda {x3}: First({x3}.jets).pt >= 0), lambda {x4}: First({x4}.jets).pt + {x4}.x)",
     "Select(ds, lambda {x}: Count(Where(Where({x}.jets, lambda {x2}: Count(Where({x}.jets, lambda {x3}: {x3}.pt > {x2}.pt)) > 0), lambda {x4}: First(Where({x}.jets, lambda {s}: {s}.pt > {x4}.pt)).pt > 0)))",
     "SelectMany(ds, lambda {x}: Where(Where({x}.jets, lambda {x2}: Count(Where({x}.jets, lambda {x3}: {x3}.eta < {x2}.eta)) > 0), lambda {x4}: First(Where({x}.jets, lambda {n}: {n}.eta < {x4}.eta)).pt >= 0))",
+    # one name bound on three nested levels, the middle binding used again after the innermost
+    # scope has ended
+    "Select(Select(ds, lambda {x}: {x}.jets), lambda {x2}: Select({x2}, lambda {x2}: (Count(Where([{x2}.pt, {x2}.eta], lambda {x2}: {x2} > 1)), {x2}.pt)))",
+    "Select(SelectMany(ds, lambda {x}: {x}.jets), lambda {x2}: (lambda {x2}: (Count(Where([{x2}.pt, {x2}.eta], lambda {x2}: {x2} > 0)), {x2}.eta))({x2}))",
+    "Where(Select(ds, lambda {x}: {x}.jets), lambda {x2}: Count(Where({x2}, lambda {x2}: Count(Where([{x2}.pt], lambda {x2}: {x2} > 1)) + {x2}.eta > 0)) > 0)",
+    "SelectMany(Select(ds, lambda {x}: {x}.jets), lambda {x2}: Select({x2}, lambda {x2}: (Count(Select([{x2}.eta, 1], lambda {x2}: {x2} * 2)), {x2}.pt, {x2}.eta)))",
+    "Select(Select(ds, lambda {x}: ({x}.jets, {x}.x)), lambda {x}: Select({x}[0], lambda {x}: Count(Where([{x}.pt, 2], lambda {x}: {x} > 1)) + {x}.eta))",
 ]
 
 
